@@ -10,6 +10,15 @@ L1_NOTE = ("Trusted base: z3; the proxy engine symx (proxies + replay-based DFS)
            "StubPulse); bounds listed under coverage.bounds. Every solver model is replayed on the unshimmed code before it is reported.")
 
 CLAIMED = {
+ "C01": dict(text="Bounded symbolic model checking of the real limit checks: Channel.validate_duration / validate_pulse, DMM.validate_pulse "
+             "on a real DetuningMap, Pulse.__init__, sample finiteness of short Ramp/Blackman/Constant waveforms and the max-sequence-duration / "
+             "refusal-has-a-cause obligations of the L1 scheduler step; limits, durations and sample values are solver variables.", ref="§6 C01",
+             note="Trusted base: z3, symx, decimal fixed-point model of np.round(x,6) (D-mode, 1e-7 grid) and exact reals for amplitudes; "
+             "stubs in the evidence file. Known findings F1, F2a, F2b, F4 are reported as KNOWN-FINDING, any other violation as VIOLATION."),
+ "C07": dict(text="Bounded symbolic model checking of the phase bookkeeping: _QubitRef/_PhaseTracker (<=4 operations) and Sequence programs "
+             "(add with post_phase_shift, phase_shift on subsets, retarget, two channels per basis) against a reference accumulator, as an "
+             "inductive per-call step; phases on the grid 2*pi*k/360.", ref="§6 C07",
+             note="Trusted base: z3, symx, SPhase grid proxy (x % 2pi = k mod 360), proxies hash to 0; emulator (Ramsey) sentence outside the claim."),
  "C02": dict(text="Bounded symbolic model checking of the real _Schedule operations: one operation from an arbitrary state "
              "satisfying the representation invariant (inductive step), all times/durations/fall times/limits as solver variables; "
              "exhaustive over paths and values inside the stated slot-count/clock bounds.", ref="§6 C02, §5 L1"),
